@@ -104,7 +104,7 @@ def mutate(rng, a):
     op = rng.choice(["dup-child", "bounds-equal-sum", "bounds-minus1-minus2", "reuse-id-children", "reuse-id-value", "reuse-id-sign",
                      "dash-ids", "leaf-named-like-compound", "self-reference", "cycle", "bounds-different",
                      "generated-id-coincidence", "generated-id-coincidence", "reuse-id-permuted-bounds",
-                     "leaf-and-compound-of-one-id-under-one-parent"])
+                     "leaf-and-compound-of-one-id-under-one-parent", "dup-child-hidden-behind-a-leaf-of-the-same-id"])
     leaf = lambda i, lo, hi: {"c": "var", "id": i, "lo": lo, "hi": hi}
     if op == "dup-child":
         n["args"].append(copy.deepcopy(rng.choice(n["args"])))
@@ -162,6 +162,16 @@ def mutate(rng, a):
         kids = [leaf("BX", 0, 1)] + extra + [inner] + extra_c
         rng.shuffle(kids)
         a = {"c": "All", "args": [a, {"c": rng.choice(["All", "Any"]), "args": kids, "id": "PX"}]}
+    elif op == "dup-child-hidden-behind-a-leaf-of-the-same-id":
+        # a sub-proposition that lists a child twice, and elsewhere (in a sibling subtree that is walked earlier or later)
+        # a plain variable carrying that sub-proposition's id
+        bad = {"c": "AtLeast", "v": 1, "args": [{"c": "str", "id": "ux"}, {"c": "str", "id": "ux"}], "id": "BD"}
+        holder = {"c": "Any", "args": [leaf("BD", 0, 1), {"c": "str", "id": "uz"}], "id": rng.choice(["AA", "ZZ"])}
+        if rng.random() < 0.5:
+            holder = {"c": "All", "args": [holder, {"c": "str", "id": "uq"}], "id": rng.choice(["A0", "Z0"])}
+        kids = [holder, bad]
+        rng.shuffle(kids)
+        a = {"c": "All", "args": [a] + kids}
     elif op == "dash-ids":
         a = {"c": "All", "args": [a, {"c": "Any", "args": [{"c": "str", "id": "b-c"}], "id": "A"}, {"c": "Any", "args": [{"c": "str", "id": "c"}], "id": "A-b"}]}
     elif op == "leaf-named-like-compound":
